@@ -29,6 +29,11 @@ def rule_N1(ctx, rid='N1'):
            'n_like is incremented exactly once on every returning path' if once else
            'some returning path increments n_like zero or several times')
     arg = [p for p in f.params if p != f.self_name][0]
+    TNAMES.clear()
+    TNAMES.update(st.targets[0].id for st in walk_no_nested(f.node)
+                  if isinstance(st, ast.Assign) and isinstance(st.targets[0], ast.Name) and
+                  any(isinstance(x, ast.Attribute) and x.attr == 'prior'
+                      for x in ast.walk(st.value)))
     for n in incs:
         v = n.ast.value
         ok = isinstance(n.ast.op, ast.Add)
@@ -93,6 +98,9 @@ def _derived_by_map(cfg, nid, name, arg, depth=0, seen=None):
     return True
 
 
+TNAMES = set()      # locals bound to the prior transform (filled by rule_N1)
+
+
 def _map_sources(v):
     """Names a value is an order/length-preserving image of; None if not a MAP."""
     if isinstance(v, ast.Name):
@@ -103,7 +111,8 @@ def _map_sources(v):
         return [v.func.value.id]
     if isinstance(v, ast.Call):
         d = dotted(v.func) or ''
-        if d in ('np.array', 'np.asarray', 'list', 'tuple', 'np.copy', 'transform') and v.args:
+        if (d in ('np.array', 'np.asarray', 'list', 'tuple', 'np.copy') or d in TNAMES) \
+                and v.args:
             return _map_sources(v.args[0])
         if d == 'map' and len(v.args) == 2:
             return _map_sources(v.args[1])
